@@ -84,15 +84,35 @@ func init() {
 						uintPreds: []string{"IsUnsigned"}, intPreds: []string{"IsSigned", "IsInteger", "IsUnsigned"},
 						floatPred: "IsFloat", evalM: "Eval", typeM: "Type"})
 				})
+			expectFixture(c, fx, "c25-M1: operand negated / ceiled in place, struct copy as destination, helper writing a literal's value, accumulator that stores its operand, global destination, field store on the operand",
+				[]string{
+					"C25-M1:NegInPlace.Eval/Decimal.Neg(dst e.Child.Eval().(*dec.Decimal))",
+					"C25-M1:CeilInPlace.Eval/Context.Ceil(dst e.Child.Eval().(*dec.Decimal))",
+					"C25-M1:truncShallow/Context.Ceil(dst c)",
+					"C25-M1:Lit.Eval/negInto(dst l.val)",
+					"C25-M1:sumBad.Update/Context.Add(dst s.acc)",
+					"C25-M1:intoGlobal/Context.Add(dst zero)",
+					"C25-M1:fieldStore/store .Neg_(dst e.Eval().(*dec.Decimal))",
+				},
+				func(fc *Ctx) {
+					runC25Mut(fc, c25MutCfg{decPath: "vchk/testdata/c25/dec", decType: "Decimal", confirmed: []string{"Decimal.Neg/d", "Decimal.Set/d", "Context.Add/d", "Context.Ceil/d"}})
+				})
 		},
-		FixturePkgs: []string{"./testdata/c25/arith", "./testdata/c25/coerce", "./testdata/c25/tys"},
+		FixturePkgs: []string{"./testdata/c25/arith", "./testdata/c25/coerce", "./testdata/c25/tys", "./testdata/c25/dec", "./testdata/c25/decuse"},
 	})
 }
 
-// c25MutExceptions: destination -> reason (C25-M1).
-var c25MutExceptions = map[string]string{
-	"sumBuffer.PerformSum/Context.Add(dst m.sum.(*apd.Decimal))": "accumulator, not an operand: sumBuffer.sum is an unexported field written only by PerformSum (read off the module's stores to the field); every decimal it stores there is one it allocated (apd.New, DecimalFromFloat64, the previous accumulator); " +
-		"the two remaining stores are results of Type.Convert that the origin walk cannot see through: Float64.Convert yields a float64 (never a decimal) and InternalDecimalType.Convert sits in the `default` arm of a switch over a field that only ever holds float64 or *apd.Decimal (dead arm; for the integer kinds it could see, DecimalType.Convert builds a new decimal). The operand n is only ever the source of the Add",
+// c25MutExceptions: destination -> the non-owned origins that are accepted for it, and why (C25-M1).
+// An origin outside the accepted list (e.g. the operand itself stored into the accumulator) is reported.
+var c25MutExceptions = map[string]c25MutExc{
+	"sumBuffer.PerformSum/Context.Add(dst m.sum.(*apd.Decimal))": {
+		origins: []string{
+			"field sumBuffer.sum, which sumBuffer.PerformSum sets to the result of dynamic call Float64.Convert",
+			"field sumBuffer.sum, which sumBuffer.PerformSum sets to the result of dynamic call InternalDecimalType.Convert",
+		},
+		why: "accumulator, not an operand: sumBuffer.sum is an unexported field written only by PerformSum (read off the module's stores to the field); every decimal it stores there is one it allocated (apd.New, DecimalFromFloat64, the previous accumulator); " +
+			"the two remaining stores are results of Type.Convert that the origin walk cannot see through: Float64.Convert yields a float64 (never a decimal) and InternalDecimalType.Convert sits in the `default` arm of a switch over a field that only ever holds float64 or *apd.Decimal (dead arm; for the integer kinds it could see, DecimalType.Convert builds a new decimal). The operand n is only ever the source of the Add",
+	},
 }
 
 // c25Exceptions: operation -> reason. Dead arms are tied to side condition K2.
